@@ -434,6 +434,18 @@ def item_inventory(path, contracted=()):
                         and rstok.normalize_key('impl ' + (it.header or '')) not in contracted:
                     entry += ' #' + hashlib.sha256(strip(src[it.kw:it.end]).encode()).hexdigest()[:10]
                 out.append(entry)
+                # the methods the impl defines: a NEW method (e.g. an extra `visit_borrowed_bytes` of a serde visitor, a new
+                # `update_from_reader` next to `update`) is code no contract has seen
+                for ch in it.children:
+                    if ch.kind == 'fn':
+                        out.append(prefix + 'impl ' + head + ' :: fn ' + str(ch.name))
+                        if ch.children:
+                            walk(ch.children, prefix + 'impl ' + head + ' :: fn ' + str(ch.name) + ' :: ')
+            elif it.kind == 'fn':
+                out.append(prefix + 'fn ' + str(it.name))
+                # items nested in a function body (serde visitors live there)
+                if it.children:
+                    walk(it.children, prefix + 'fn %s :: ' % it.name)
             elif it.kind in ('struct', 'enum'):
                 head = src[it.start:it.kw]
                 ders = sorted(set(d.strip() for m in re.finditer(r'derive\(([^)]*)\)', head) for d in m.group(1).split(',') if d.strip()))
